@@ -703,6 +703,13 @@ def excused_no_origin(t, orig_cols):
     return (not t['collapse']) and (not t['fixed']) and s > 0 and missing > 0 and abs(spacing_excess(t) - s * missing) < 1e-6
 
 
+def min_gt_max(r):
+    """the recorded oracle of an auto_table_layout call has a column whose min-content width exceeds its max-content
+    width (reported finding: the colspan loop of preferred.py distributes min-content excess in proportion to the
+    max-content widths and does not keep max >= min)."""
+    return any(Fraction(c[4]) > Fraction(c[3]) + Fraction(1, 10 ** 6) for c in r.get('cols', []))
+
+
 def widths_as_computed(t, records):
     """the fragment's column widths must be the output of one of the recorded auto/fixed layout calls of that table.
     Returns None if fine, 'mirrored' if they are the reverse of one (rtl), 'different' otherwise."""
@@ -766,7 +773,11 @@ def monitor_fragment(t, meta, orig_cols, records, first_page):
                     need = max(len(w) for w in text.split()) * 10 + fl(c['bp'])
                     have = sum(ws[c['gx']:c['gx'] + c['k']]) + s * (c['k'] - 1)
                     if have < need - 1e-4:
-                        bad.append(('column-at-least-widest-unbreakable-content', (c['cid'], need, have)))
+                        span_cols = range(c['gx'], c['gx'] + c['k'])
+                        tag = '[oracle-min-gt-max]' if any(
+                            Fraction(r['cols'][i][4]) > Fraction(r['cols'][i][3]) + Fraction(1, 10 ** 6)
+                            for r in records if r.get('cols') for i in span_cols if i < len(r['cols'])) else ''
+                        bad.append(('column-at-least-widest-unbreakable-content' + tag, (c['cid'], need, have)))
         for a, b in zip(rows, rows[1:]):
             if fl(b['y']) < fl(a['y']) + fl(a['h']) - PEPS:
                 bad.append(('rows-do-not-overlap', (a['rid'], b['rid'])))
@@ -856,7 +867,8 @@ def monitor_split(tabs, meta, page_h):
 # (coverage.streams.render.open_findings, with a first witness) and described in the builder's report; once listed
 # as open known findings with these signatures they go through run.fail (and are printed as KNOWN-FINDING).
 # Every other failed clause is a VIOLATION.
-REPORTED = set()    # every finding of the build is now either fixed in /repo or listed in known_findings.json
+REPORTED = {'crash:auto_table_layout-zero-division[oracle-min-gt-max]',
+            'table-geom:column-at-least-widest-unbreakable-content[oracle-min-gt-max]'}
 
 
 def finding(run, tally, signature, what, data):
@@ -903,6 +915,16 @@ def judge_docs(run, specs, docs, thorough, need_all=True):
                      signature='crash:%s' % (o['site'],))
             continue
         S['pages'] += o['pages']
+        if o.get('crash'):
+            cr = o['crash']
+            sig = 'crash:%s' % (tuple(cr['site']) if cr['site'] else None,)
+            if cr['type'] == 'ZeroDivisionError' and cr['site'] and cr['site'][2] == 'auto_table_layout' and \
+                    o['auto'] and min_gt_max(o['auto'][-1]):
+                sig = 'crash:auto_table_layout-zero-division[oracle-min-gt-max]'
+            finding(run, S['tally'], sig, 'render raised %s at %s' % (cr['type'], cr['site']),
+                    {'stream': name, 'html': d['html'], 'exc': cr,
+                     'doc': {k: d[k] for k in ('html', 'meta', 'mode', 'page_h', 'stream')}})
+            continue
         recs = {}
         for r in o['auto']:
             if 'hook_error' in r or has_bad(r) or auto_near_threshold(r):
@@ -1008,6 +1030,21 @@ def judge_docs(run, specs, docs, thorough, need_all=True):
                          'doc': {k: docs[di][k] for k in ('html', 'meta', 'mode', 'page_h', 'stream')}})
         run.count('render/' + tag, len(cs), [(tag, i) for i in range(len(cs))])
         run.stream_info('render/' + tag, rule='records of kind %s collected in the render streams, judged in Coq by %s' % (tag, judge))
+    for name, mode, ndocs in specs:
+        if mode != 'colspan':
+            continue
+        seen = set()
+        for d in docs:
+            if d['stream'] != name:
+                continue
+            for m in d['meta'].values():
+                for (x, span, n) in m.get('span_positions', []):
+                    where = 'first' if x == 0 else ('last' if x + span == n else 'middle')
+                    seen.add((m['profile'], m['rtl'], where))
+        want = [(pr, rtl, w) for pr in PROFILES for rtl in (False, True) for w in ('first', 'last')]
+        missing = [w for w in want if w not in seen]
+        run.oblige('coverage:%s colspan cells in the first and in later columns, every column profile, ltr and rtl' % name,
+                   not missing, 'missing: %s' % missing)
     first = {}
     for d in docs:
         first.setdefault(d['stream'], d['html'])
@@ -1127,10 +1164,10 @@ def check(run):
                   'stub context with an injected oracle: 0..6 columns, min<=max (10% deliberately insane), percentages, '
                   'constrained flags; table width below min / between guesses / exactly at a guess / above max',
                   skip=auto_near_threshold)
-    pref_stream(run, gen_pref(rng, 720 * n))
+    pref_stream(run, gen_pref(rng, 576 * n))
     corpus_stage(run)
     render_streams(run, [('render-layout', 'layout', 90 * n), ('render-borders', 'borders', 60 * n),
-                         ('render-split', 'split', 30 * n), ('render-colspan', 'colspan', 64 * n)], rng, thorough)
+                         ('render-split', 'split', 30 * n), ('render-colspan', 'colspan', 48 * n)], rng, thorough)
     # every group of distribute_excess_width must have been exercised with a slice that does not start at 0
     groups = set((k[1][0], k[1][2] > 0) for k in run.distinct if k[0] == 'dist-direct')
     missing = [g for g in (1, 2, 3, 4, 5) if (g, True) not in groups]
@@ -1142,7 +1179,8 @@ def replay(data):
     st = d.get('stream')
     table = {'dist-direct': ('dist', coq_dist_case, DIST_T, 'dist_judge'),
              'fixed-direct': ('fixed', coq_fixed_case, FIXED_T, 'fixed_judge'),
-             'auto-direct': ('auto', coq_auto_case, AUTO_T, 'auto_judge')}
+             'auto-direct': ('auto', coq_auto_case, AUTO_T, 'auto_judge'),
+             'pref-direct': ('pref', coq_pref_case, PREF_T, 'pref_judge')}
     if st in table:
         fn, to_coq, ty, judge = table[st]
         (s, o), = common.run_impl('impl_c10', fn, [d['case']])
